@@ -44,8 +44,8 @@ pub fn c03(seed: u64, n: usize) {
 
 pub fn c01(seed: u64, n: usize) {
     let mut r = Rng::new(seed ^ 0xC01);
-    for _ in 0..n {
-        let qy = gen_query(&mut r, true, true, false);
+    for i in 0..n {
+        let qy = gen_query(&mut r, true, true, i % 3 == 2);
         let o = qy.origin.as_ref();
         emit_inv("C01", &qy.fam, &qy.ks, &qy.pose, o);
         let (pf, prev) = gen_prev(&mut r, o);
@@ -112,6 +112,8 @@ pub fn c04(seed: u64, n: usize) {
         emit_invcs("C04", &fam, &qy.ks, &qy.pose, &prev);
         if qy.axial { emit_invc5("C04", &fam, &qy.ks, &qy.pose, &prev, o); }
     }
+    // Frame::forward_transformed orders by closeness to the given previous joints (not to the transformed ones)
+    crate::props_misc::fwd_tr_cases("C04", &mut r, (n / 4).max(10));
     // trajectories: each call's previous is the preceding call's first answer
     let ntraj = (n / 50).max(2);
     for t in 0..ntraj {
@@ -184,6 +186,18 @@ pub fn c05(seed: u64, n: usize) {
         let mut prev = q;
         prev[3] += r.range(-1.0, 1.0); prev[5] += r.range(-1.0, 1.0);
         emit_invc("C05", &format!("{}/singular-prev-other-split", rfam), &ks, &pose, &prev, Some(&q));
+        // previous realising the pose with J4 / J6 whole turns away (still inside +-2pi): the J4+J6 sums differ by
+        // up to 4pi, the recovery has to wrap more than once
+        let mut prev = q;
+        for kk in [3usize, 5] { let cand = prev[kk] + 2.0 * PI * *r.pick(&[-1.0, 1.0]); if cand.abs() <= 2.0 * PI { prev[kk] = cand; } }
+        emit_invc("C05", &format!("{}/singular-prev-turns", rfam), &ks, &pose, &prev, Some(&q));
+        // the CONSTRAINT_CENTERED sentinel with limits whose centres are not zero
+        if i % 3 == 0 {
+            let mut f = [0.0; 6]; let mut t = [0.0; 6];
+            for kk in 0..6 { let c = q[kk] + r.range(-0.3, 0.3); f[kk] = c - 1.0; t[kk] = c + 1.0; }
+            let mut ksc = ks.clone(); ksc.cons = Some((f, t, *r.pick(&[0.0, 0.5, 1.0])));
+            emit_invc("C05", &format!("{}/singular-sentinel-cons", rfam), &ksc, &pose, &rs_opw_kinematics::kinematic_traits::CONSTRAINT_CENTERED, Some(&q));
+        }
     }
 }
 
